@@ -179,11 +179,112 @@ Definition gh_annotation_of (v : violation) : gh_annotation :=
   {| ga_level := v_level v; ga_file := l_file (v_loc v);
      ga_row := l_row (v_loc v); ga_col := l_col (v_loc v); ga_msg := learn_more v |}.
 
-Record github_doc := { gd_pretty : pretty_doc; gd_annotations : list gh_annotation }.
+(* actions/toolkit command.ts escapeData / escapeProperty (what strings.NewReplacer does in one pass) *)
+Definition esc_byte (property : bool) (c : N) : str :=
+  if c =? 37 then [37; 50; 53]                       (* %  -> %25 *)
+  else if c =? 13 then [37; 48; 68]                  (* \r -> %0D *)
+  else if c =? 10 then [37; 48; 65]                  (* \n -> %0A *)
+  else if property && (c =? 58) then [37; 51; 65]    (* :  -> %3A *)
+  else if property && (c =? 44) then [37; 50; 67]    (* ,  -> %2C *)
+  else [c].
+Definition gh_escape (property : bool) (s : str) : str := flat_map (esc_byte property) s.
+
+(* the runner's unescape on escaped text (it replaces %0D, %0A, (%3A, %2C,) and finally %25) *)
+Fixpoint gh_unescape (property : bool) (s : str) {struct s} : str :=
+  match s with
+  | [] => []
+  | c :: s1 =>
+    match s1 with
+    | a :: (b :: r) =>
+      if c =? 37 then
+        if (a =? 48) && (b =? 68) then 13 :: gh_unescape property r
+        else if (a =? 48) && (b =? 65) then 10 :: gh_unescape property r
+        else if property && (a =? 51) && (b =? 65) then 58 :: gh_unescape property r
+        else if property && (a =? 50) && (b =? 67) then 44 :: gh_unescape property r
+        else if (a =? 50) && (b =? 53) then 37 :: gh_unescape property r
+        else c :: gh_unescape property s1
+      else c :: gh_unescape property s1
+    | _ => c :: gh_unescape property s1
+    end
+  end.
+
+Definition GH_FILE_EQ : str := Eval vm_compute in lit "file=".
+Definition GH_LINE_EQ : str := Eval vm_compute in lit "line=".
+Definition GH_COL_EQ : str := Eval vm_compute in lit "col=".
+Definition GH_FILE : str := Eval vm_compute in lit "file".
+Definition GH_LINE : str := Eval vm_compute in lit "line".
+Definition GH_COL : str := Eval vm_compute in lit "col".
+
+(* "::level file=F,line=R,col=C::message" *)
+Definition gh_command_line (a : gh_annotation) : str :=
+  [58; 58] ++ ga_level a ++ 32 :: GH_FILE_EQ ++ gh_escape true (ga_file a) ++
+  44 :: GH_LINE_EQ ++ show_N (ga_row a) ++ 44 :: GH_COL_EQ ++ show_N (ga_col a) ++
+  58 :: 58 :: gh_escape false (ga_msg a).
+
+(* key=value at the first '='; a pair with an empty side is dropped (Split with RemoveEmptyEntries) *)
+Fixpoint split_first (c : N) (s : str) : option (str * str) :=
+  match s with
+  | [] => None
+  | x :: s' => if x =? c then Some ([], s')
+               else match split_first c s' with Some (k, v) => Some (x :: k, v) | None => None end
+  end.
+
+Fixpoint prop_lookup (k : str) (props : list str) (acc : option str) : option str :=
+  match props with
+  | [] => acc
+  | p :: props' =>
+    match split_first 61 p with
+    | Some (k', v) => if str_eqb k k' && negb (str_eqb v []) && negb (str_eqb k' [])
+                      then prop_lookup k props' (Some v) else prop_lookup k props' acc
+    | None => prop_lookup k props' acc
+    end
+  end.
+
+(* the GitHub Actions runner's ActionCommand.TryParseV2, for commands with properties *)
+Definition gh_parse_command (line : str) : option gh_annotation :=
+  match drop_prefix line [58; 58] with
+  | None => None
+  | Some rest =>
+    match index_of rest [58; 58] with
+    | None => None
+    | Some i =>
+      let info := firstn i rest in
+      let data := skipn (i + 2) rest in
+      match index_byte 32 info with
+      | None => None
+      | Some sp =>
+        let props := split_on 44 (skipn (S sp) info) in
+        match prop_lookup GH_FILE props None, prop_lookup GH_LINE props None, prop_lookup GH_COL props None with
+        | Some f, Some l, Some c =>
+          match read_N l, read_N c with
+          | Some row, Some col =>
+            Some {| ga_level := firstn sp info; ga_file := gh_unescape true f; ga_row := row; ga_col := col;
+                    ga_msg := gh_unescape false data |}
+          | _, _ => None
+          end
+        | _, _, _ => None
+        end
+      end
+    end
+  end.
+
+(* pinned commit: file name and message were written as they are *)
+Definition gh_command_line_pinned (a : gh_annotation) : str :=
+  [58; 58] ++ ga_level a ++ 32 :: GH_FILE_EQ ++ ga_file a ++
+  44 :: GH_LINE_EQ ++ show_N (ga_row a) ++ 44 :: GH_COL_EQ ++ show_N (ga_col a) ++
+  58 :: 58 :: ga_msg a.
+
+(* what regal writes as command name and file: a level without space or colon, a non-empty file name *)
+Definition gh_wf (a : gh_annotation) : Prop :=
+  ~ In 32 (ga_level a) /\ ~ In 58 (ga_level a) /\ ga_file a <> [].
+
+(* the table, the annotations as a conforming consumer reads them, and the command lines as written *)
+Record github_doc := { gd_pretty : pretty_doc; gd_annotations : list gh_annotation; gd_lines : list str }.
 
 Definition github_gen (cut : str -> str) (nocolor : bool) (r : report) : github_doc :=
   {| gd_pretty := pretty_gen cut nocolor r;
-     gd_annotations := map gh_annotation_of (r_violations r) |}.
+     gd_annotations := map gh_annotation_of (r_violations r);
+     gd_lines := map (fun v => gh_command_line (gh_annotation_of v)) (r_violations r) |}.
 Definition github := github_gen pretty_text.
 
 (* ------------------------------------------------------------------ sarif *)
@@ -273,7 +374,7 @@ Record junit_case := {
   jc_msg : str;         (* failure message *)
   jc_type : str;        (* failure type = level *)
   jc_data : str;        (* CDATA body *)
-  jc_rule : str }.      (* the "Rule: " line of the body *)
+  jc_rule : str }.      (* the "Rule: " line of the body (titles contain no newline) *)
 
 Record junit_suite := { js_name : str; js_tests : N; js_failures : N; js_cases : list junit_case }.
 Record junit_doc := { jd_tests : N; jd_failures : N; jd_suites : list junit_suite }.
@@ -286,13 +387,15 @@ Definition junit_data (v : violation) : str :=
   lit "Category: " ++ v_cat v ++ [10] ++ lit "Location: " ++ loc_string (v_loc v) ++ [10] ++
   lit "Text: " ++ junit_text v ++ [10] ++ lit "Documentation: " ++ doc_url v.
 
+(* attribute values pass through encoding/xml's own escaping ([xml_safe]); [safe] is what the reporter
+   applies to the CDATA body *)
 Definition junit_case_gen (safe : str -> str) (v : violation) : junit_case :=
   {| jc_name := xml_safe (v_cat v ++ [47] ++ v_title v ++ lit ": " ++ v_desc v);
      jc_class := xml_safe (loc_string (v_loc v));
      jc_msg := xml_safe (learn_more v);
      jc_type := xml_safe (v_level v);
      jc_data := safe (junit_data v);
-     jc_rule := v_title v |}.
+     jc_rule := safe (v_title v) |}.
 
 Definition junit_suite_gen (safe : str -> str) (vs : list violation) (file : str) : junit_suite :=
   let mine := filter (fun v => str_eqb (l_file (v_loc v)) file) vs in
@@ -312,7 +415,8 @@ Definition junit_gen (safe : str -> str) (files : list str -> list str) (r : rep
    and the CDATA body is written as is *)
 Definition junit_pinned := junit_gen (fun s => s) sort_strs.
 (* current code: a file is listed when first seen *)
-Definition junit := junit_gen xml_safe (fun fs => sort_strs (first_seen [] fs)).
+Definition junit_files (fs : list str) : list str := sort_strs (first_seen [] fs).
+Definition junit := junit_gen xml_safe junit_files.
 
 (* ------------------------------------------------------------------ json *)
 
@@ -324,20 +428,22 @@ Definition opt_field (k : str) (o : option jval) : list (str * jval) :=
 Definition enc_position (p : position) : jval :=
   JObj [(K "row", JNum (p_row p)); (K "col", JNum (p_col p))].
 
-Definition enc_location (l : location) : jval :=
-  JObj (opt_field (K "end") (option_map enc_position (l_end l)) ++
-        opt_field (K "text") (option_map JStr (l_text l)) ++
-        [(K "file", JStr (l_file l)); (K "col", JNum (l_col l)); (K "row", JNum (l_row l))] ++
-        (if l_offset l =? 0 then [] else [(K "offset", JNum (l_offset l))])).
+Definition location_fields (l : location) : list (str * jval) :=
+  opt_field (K "end") (option_map enc_position (l_end l)) ++
+  opt_field (K "text") (option_map JStr (l_text l)) ++
+  [(K "file", JStr (l_file l)); (K "col", JNum (l_col l)); (K "row", JNum (l_row l))] ++
+  (if l_offset l =? 0 then [] else [(K "offset", JNum (l_offset l))]).
+Definition enc_location (l : location) : jval := JObj (location_fields l).
 
 Definition enc_related (x : related) : jval :=
   JObj [(K "description", JStr (rr_desc x)); (K "ref", JStr (rr_ref x))].
 
-Definition enc_violation (v : violation) : jval :=
-  JObj ([(K "title", JStr (v_title v)); (K "description", JStr (v_desc v));
-         (K "category", JStr (v_cat v)); (K "level", JStr (v_level v))] ++
-        (match v_related v with [] => [] | rs => [(K "related_resources", JArr (map enc_related rs))] end) ++
-        [(K "location", enc_location (v_loc v))]).
+Definition violation_fields (v : violation) : list (str * jval) :=
+  [(K "title", JStr (v_title v)); (K "description", JStr (v_desc v));
+   (K "category", JStr (v_cat v)); (K "level", JStr (v_level v))] ++
+  (match v_related v with [] => [] | rs => [(K "related_resources", JArr (map enc_related rs))] end) ++
+  [(K "location", enc_location (v_loc v))].
+Definition enc_violation (v : violation) : jval := JObj (violation_fields v).
 
 Definition enc_notice (n : notice) : jval :=
   JObj [(K "title", JStr (n_title n)); (K "description", JStr (n_desc n)); (K "category", JStr (n_cat n));
@@ -348,14 +454,15 @@ Definition enc_summary (s : summary) : jval :=
         (K "rules_skipped", JNum (s_skipped s)); (K "num_violations", JNum (s_numviol s))].
 
 (* JSONReporter.Publish: nil violations become [], fields in struct order, omitempty honoured *)
-Definition enc_report (r : report) : jval :=
-  JObj (opt_field (K "aggregates") (r_aggregates r) ++
-        opt_field (K "metrics") (r_metrics r) ++
-        opt_field (K "ignore_directives") (r_ignore r) ++
-        [(K "violations", JArr (map enc_violation (r_violations r)))] ++
-        (match r_notices r with [] => [] | ns => [(K "notices", JArr (map enc_notice ns))] end) ++
-        opt_field (K "profile") (r_profile r) ++
-        [(K "summary", enc_summary (r_summary r))]).
+Definition report_fields (r : report) : list (str * jval) :=
+  opt_field (K "aggregates") (r_aggregates r) ++
+  opt_field (K "metrics") (r_metrics r) ++
+  opt_field (K "ignore_directives") (r_ignore r) ++
+  [(K "violations", JArr (map enc_violation (r_violations r)))] ++
+  (match r_notices r with [] => [] | ns => [(K "notices", JArr (map enc_notice ns))] end) ++
+  opt_field (K "profile") (r_profile r) ++
+  [(K "summary", enc_summary (r_summary r))].
+Definition enc_report (r : report) : jval := JObj (report_fields r).
 
 (* decoding into the same structs: absent key = zero value, wrong shape = error *)
 Fixpoint jlookup (k : str) (fs : list (str * jval)) : option jval :=
@@ -507,3 +614,120 @@ Definition parse_loc (s : str) : str * N * N :=
     end
   | _ => (s, 0, 0)
   end.
+
+Definition key_of_loc (loc title level : str) : vkey :=
+  let '(f, r, c) := parse_loc loc in (f, r, c, title, level).
+
+(* pretty: Location row, Rule row, and the Level row — or, with colours, red/yellow *)
+Definition pretty_entry_key (e : pretty_entry) : vkey :=
+  key_of_loc (pe_loc e) (pe_rule e)
+    (match pe_level e with
+     | LevelRow l => l
+     | DescColour y => if y then L_WARNING else L_ERROR
+     end).
+Definition pretty_keys (d : pretty_doc) : list vkey := map pretty_entry_key (pd_entries d).
+
+(* github: the rule is only in the table, everything else in the workflow command of the same index *)
+Definition github_keys (d : github_doc) : list vkey :=
+  map (fun ea => (ga_file (snd ea), ga_row (snd ea), ga_col (snd ea), pe_rule (fst ea), ga_level (snd ea)))
+      (combine (pd_entries (gd_pretty d)) (gd_annotations d)).
+
+(* sarif: results that are not informational; a result without region stands for position 0:0 *)
+Definition sarif_result_key (x : sarif_result) : list vkey :=
+  match sr_kind x, sr_loc x with
+  | None, Some (uri, Some g) => [(uri, sg_row g, sg_col g, sr_rule x, sr_level x)]
+  | None, Some (uri, None) => [(uri, 0, 0, sr_rule x, sr_level x)]
+  | _, _ => []
+  end.
+Definition sarif_keys (d : sarif_doc) : list vkey := flat_map sarif_result_key (sd_results d).
+
+Definition junit_case_key (c : junit_case) : vkey := key_of_loc (jc_class c) (jc_rule c) (jc_type c).
+Definition junit_keys (d : junit_doc) : list vkey :=
+  flat_map (fun s => map junit_case_key (js_cases s)) (jd_suites d).
+
+(* compact has neither a rule nor a level column: positions only *)
+Definition pos_only (k : vkey) : vkey := let '(f, r, c, _, _) := k in (f, r, c, [], []).
+Definition compact_keys (d : compact_doc) : list vkey :=
+  match d with
+  | CompactEmpty => []
+  | CompactTable rows _ => map (fun x => key_of_loc (fst x) [] []) rows
+  end.
+
+(* the informational results of a SARIF document, and the notices they stand for *)
+Definition sarif_notice_titles (d : sarif_doc) : list str :=
+  flat_map (fun x => match sr_kind x with Some _ => [sr_rule x] | None => [] end) (sd_results d).
+Definition reported_notice_titles (r : report) : list str :=
+  flat_map (fun n => if str_eqb (n_sev n) S_NONE then [] else [n_title n]) (r_notices r).
+
+(* utf8.Valid *)
+Definition cont (c : N) : bool := is_cont c.
+Definition is2 (a b : N) : bool := (194 <=? a) && (a <=? 223) && cont b.
+Definition is3 (a b c : N) : bool :=
+  (((a =? 224) && (160 <=? b) && (b <=? 191)) ||
+   ((225 <=? a) && (a <=? 236) && cont b) ||
+   ((a =? 237) && (128 <=? b) && (b <=? 159)) ||
+   ((238 <=? a) && (a <=? 239) && cont b)) && cont c.
+Definition is4 (a b c d : N) : bool :=
+  (((a =? 240) && (144 <=? b) && (b <=? 191)) ||
+   ((241 <=? a) && (a <=? 243) && cont b) ||
+   ((a =? 244) && (128 <=? b) && (b <=? 143))) && cont c && cont d.
+
+Fixpoint utf8_valid (s : str) {struct s} : bool :=
+  match s with
+  | [] => true
+  | a :: s1 =>
+    if a <? 128 then utf8_valid s1 else
+    match s1 with
+    | [] => false
+    | b :: s2 =>
+      if is2 a b then utf8_valid s2 else
+      match s2 with
+      | [] => false
+      | c :: s3 =>
+        if is3 a b c then utf8_valid s3 else
+        match s3 with
+        | [] => false
+        | d :: s4 => if is4 a b c d then utf8_valid s4 else false
+        end
+      end
+    end
+  end.
+
+(* ------------------------------------------------------------------ domain predicates of the theorems *)
+
+(* "file:row:col" can only be read back when the file name has no colon of its own *)
+Definition files_without_colon (r : report) : Prop :=
+  forall v, In v (r_violations r) -> ~ In COLON (l_file (v_loc v)).
+
+(* the two levels the linter reports (a rule at level "ignore" is not run) *)
+Definition levels_error_or_warning (r : report) : Prop :=
+  forall v, In v (r_violations r) -> v_level v = L_ERROR \/ v_level v = L_WARNING.
+
+(* OPA positions are 1-based; a violation without position (aggregate rules) has 0:0 *)
+Definition positions_well_formed (r : report) : Prop :=
+  forall v, In v (r_violations r) ->
+    (l_row (v_loc v) = 0 /\ l_col (v_loc v) = 0) \/ (0 < l_row (v_loc v) /\ 0 < l_col (v_loc v)).
+
+(* the strings the JUnit keys are read from survive XML: no character outside the XML Char production *)
+Definition xml_clean_keys (r : report) : Prop :=
+  forall v, In v (r_violations r) ->
+    xml_safe (loc_string (v_loc v)) = loc_string (v_loc v) /\
+    xml_safe (v_level v) = v_level v /\ xml_safe (v_title v) = v_title v.
+
+(* a compositional sufficient condition for [xml_safe s = s] *)
+Definition xml_plain (s : str) : Prop :=
+  Forall (fun c => (32 <=? c) || (c =? 9) || (c =? 10) || (c =? 13) = true /\ c <> 239) s.
+
+Definition file_of (v : violation) : str := l_file (v_loc v).
+
+(* small reports for witnesses and examples *)
+Definition mk_report (vs : list violation) : report :=
+  {| r_aggregates := None; r_metrics := None; r_aggprofile := None; r_ignore := None;
+     r_violations := vs; r_notices := []; r_profile := None;
+     r_summary := {| s_scanned := 1; s_failed := 1; s_skipped := 0; s_numviol := N.of_nat (List.length vs) |} |}.
+
+Definition mk_violation (title level file : str) (row col : N) : violation :=
+  {| v_title := title; v_desc := [100]; v_cat := [99]; v_level := level; v_related := [];
+     v_loc := {| l_end := None; l_text := None; l_file := file; l_col := col; l_row := row; l_offset := 0 |};
+     v_isagg := false |}.
+
